@@ -4,7 +4,7 @@
    driver only reads and prints numbers. *)
 From Coq Require Import FMapPositive.
 From Lace Require Import Word Machine Isa Vm RunProofs.
-From Lace Require Asm Cli Watch Feat CliFile.
+From Lace Require Asm Cli Watch Feat CliFile CliWrite.
 
 (* ------------------------------------------------------------------ *)
 (** * Helpers *)
@@ -208,6 +208,25 @@ Definition run_objb (args : list N) : list (list N) :=
   let '(bytes, _) := take (N.to_nat (hdN (tlN args))) (tlN (tlN args)) in
   let '(e, bs) := CliFile.object_of_file feat bytes in
   [e :: N.of_nat (length bs) :: bs].
+
+(** WRITE = kind (0 absent, 1 regular, 2 link to a regular file, 3 dangling link, 4 device/pipe, 5 directory),
+    temp_refused create_refused has_stop stop_after takes_no_data rename_refused;
+    result: 0 WOk | 1 WCreateFail | 2 WWriteFailSpecial | 3 WTempFail | 4 n WWriteFailTruncated  ([CliWrite.outcome_of]) *)
+Definition run_write (args : list N) : list (list N) :=
+  let nth k := List.nth k args 0 in
+  let b k := negb (nth k =? 0) in
+  let kind := match nth 0%nat with
+              | 0 => CliWrite.KAbsent | 1 => CliWrite.KRegular | 2 => CliWrite.KLinkRegular
+              | 3 => CliWrite.KDangling | 4 => CliWrite.KSpecial | _ => CliWrite.KDir
+              end in
+  let fl := CliWrite.mkFaults (b 1%nat) (b 2%nat) (if b 3%nat then Some (N.to_nat (nth 4%nat)) else None) (b 5%nat) (b 6%nat) in
+  match CliWrite.outcome_of kind fl with
+  | Cli.WOk => [[0]]
+  | Cli.WCreateFail => [[1]]
+  | Cli.WWriteFailSpecial => [[2]]
+  | Cli.WTempFail => [[3]]
+  | Cli.WWriteFailTruncated n => [[4; N.of_nat n]]
+  end.
 
 (** WATCH = feat nversions, then for each version: nchars and its chars; result: one verdict per version
     (`lace watch`: Watch.watch on the versions in order) *)
